@@ -332,7 +332,7 @@ def run(payload):
         nontrivial += 1 if k > 1 else 0
         if len(fails) > 50:
             break
-    rstats = {k: (None if v is None else 0) for k, v in stats.items()}
+    rstats = {k: (None if k == "out_of_domain_example" else 0) for k in stats}
     nreal, pre = audit_real(payload.get("real", []), fails, rstats, doc_order)
     pre["stats"] = rstats
     evaluated += nreal
